@@ -234,6 +234,15 @@ static void groups_child(const void *job, size_t n) {
 	with_function_train = 1; begin(7, 0);
 	const cm_train_t *t = cm_train(&M, "train3"); if (!t || pi >= t->nper) res_infra("no function train");
 	const char *P = t->per[pi].id;
+	/* first a drive command that carries SEVERAL function groups at once (the public low-level call; a handheld taking over sends
+	 * the same as MSG_CS_DRIVE_MANUAL): the tracked state of every group must follow, which the pair catalogue below then
+	 * shows on the wire — each later command re-sends its whole group from the tracked state */
+	if (pi % 2) { t_bidib_node_address na = {0, 0, 0}; if (p[1]) { uint8_t a4[4]; cm_board_addr(&M, 3, a4); na.top = a4[0]; na.sub = a4[1]; na.subsub = a4[2]; }
+		uint32_t pat = (pi & 2) ? 0xAAAAAAAAu : 0x55555555u, valid = 0; for (int k = 0; k < t->nper; k++) valid |= 1u << t->per[k].bit; pat &= valid;
+		t_bidib_cs_drive_mod dp; memset(&dp, 0, sizeof dp); dp.dcc_address.addrl = t->addrl; dp.dcc_address.addrh = t->addrh; dp.dcc_format = 3; dp.active = 0x3E; dp.speed = 0;
+		dp.function1 = (uint8_t) pat; dp.function2 = (uint8_t) (pat >> 8); dp.function3 = (uint8_t) (pat >> 16); dp.function4 = (uint8_t) (pat >> 24);
+		bidib_send_cs_drive(na, dp, 0); bidib_flush(); hx_quiesce(); logpos = SB.nlog;
+		int ti = tidx("train3"); TS[ti].fb = pat; check_train_state("bidib_send_cs_drive with five function groups active", ti); }
 	for (int qi = 0; qi < t->nper; qi++) { if (qi == pi) continue; const char *Q = t->per[qi].id;
 		cmd_function("train3", P, 1, to); cmd_function("train3", Q, 1, to); cmd_function("train3", P, 0, to); cmd_function("train3", Q, 0, to);
 		if (res_nviol() > 3) goto out; }
